@@ -51,6 +51,9 @@ func add(sig, detail, input string) {
 
 func c19(r *rand.Rand, n int) {
 	check := func(class, s string) {
+		if !inDomain(s) {
+			return // the property quantifies over runes 0x00-0xFF plus printable Unicode
+		}
 		rep.Cases++
 		rep.Classes[class]++
 		esc := inputrc.Escape(s)
@@ -203,6 +206,7 @@ func main() {
 	n := flag.Int("n", 10000, "random cases")
 	seed := flag.Int64("seed", 1, "PRNG seed")
 	out := flag.String("out", "", "report path")
+	dir := flag.String("dir", os.Getenv("RLV_SCRATCH"), "scratch directory")
 	flag.Parse()
 	t0 := time.Now()
 	rep = report{Prop: *prop, Seed: *seed, Classes: map[string]int{}, BySig: map[string]int{}}
@@ -210,6 +214,7 @@ func main() {
 	switch *prop {
 	case "C19":
 		c19(r, *n)
+		c19dumps(r, *n/50+20, *dir)
 	case "C12":
 		c12(r, *n)
 	default:
